@@ -90,3 +90,13 @@ Theorem tcp_loop_terminates : forall (bad : list N -> option pyexn) (len : optio
   f_fuel_ok (frun bad (ffuel buf) len buf outs) = true.
 Proof. intros bad len buf outs. exact (frunL_fuel_ok bad (fmu len buf) len buf outs (le_n _)). Qed.
 Print Assumptions tcp_loop_terminates.
+
+(** ---- the UDP path: DNSDatagramProtocol.datagramReceived ---- *)
+
+(** any datagram is either decoded and handed on, or dropped as a truncated / invalid packet; the
+    catch-all "Unexpected decoding error" branch is never reached, and nothing is raised (the handler
+    returns in every branch - that part, incl. the log line, is tied by the harness only) *)
+Theorem udp_datagram_delivered_or_dropped : forall msg : list N,
+  bytes_ok msg -> (exists m, udp_receive msg = UDelivered m) \/ udp_receive msg = UDropped.
+Proof. exact udp_never_unexpected. Qed.
+Print Assumptions udp_datagram_delivered_or_dropped.
